@@ -12,10 +12,19 @@ func (self Compiler) CurrFn() *Function { return self.modules[self.currModule][s
 
 func (self Compiler) currLoop() Loop { return self.loops[len(self.loops)-1] }
 func (self *Compiler) pushLoop(l Loop) {
+	l.tryDepth = self.tryDepth
 	self.loops = append(self.loops, l)
 }
 func (self *Compiler) popLoop() {
 	self.loops = self.loops[:len(self.loops)-1]
+}
+
+// Removes the catch-labels of all `try` blocks which were opened since `outerDepth` blocks were open:
+// required before a jump out of these blocks, otherwise their catch-labels would stay installed.
+func (self *Compiler) leaveTryBlocks(outerDepth uint, span errors.Span) {
+	for depth := outerDepth; depth < self.tryDepth; depth++ {
+		self.insert(newPrimitiveInstruction(Opcode_PopTryLabel), span)
+	}
 }
 
 func (self *Compiler) pushScope() {
